@@ -30,6 +30,8 @@ from smt import numfmt as N
 from vf.cond import known_findings
 
 VERIF = os.path.dirname(os.path.dirname(os.path.abspath(__file__)))
+# runs against a scratch tree (INDIPY_SRC, used for seeded changes) never touch the committed evidence
+EVIDENCE_DIR = "evidence" if os.environ.get("INDIPY_SRC", "/repo") == "/repo" else os.path.join("scratch", "evidence-alt")
 SLACK = Fraction(1, 10 ** 6)          # float error allowance, |n| <= 1e9 (2^-53 * 1e9 ~ 1.1e-7 per operation)
 RANGE = 10 ** 9
 
@@ -672,8 +674,8 @@ def main(tier, seed):
                         "Latin-1 wire alphabet", "Python int()/float() literal grammars"],
         "wall_s": round(time.perf_counter() - t0, 3), "violations": len(new),
     }
-    os.makedirs(os.path.join(VERIF, "evidence"), exist_ok=True)
-    with open(os.path.join(VERIF, "evidence", "C10.json"), "w") as f:
+    os.makedirs(os.path.join(VERIF, EVIDENCE_DIR), exist_ok=True)
+    with open(os.path.join(VERIF, EVIDENCE_DIR, "C10.json"), "w") as f:
         json.dump(ev, f, indent=1, default=str)
     for l in known_lines:
         print(l)
